@@ -92,6 +92,7 @@ class Hub:
 
     def rst(self, name: str):
         self.net.cli[name].peer_reset()
+        self.events.append({"a": "Die", "c": name})
 
     def die(self, name: str, mode: str = "hdr"):
         """The peer is gone without the manager having noticed: its writes fail.
